@@ -239,7 +239,11 @@ func (e *Eng) ghostField(t types.Type, name string) *ghostFieldInfo {
 				return nil
 			}
 			sort := e.sorts.sortOf(gt)
-			g := &ghostFieldInfo{heap: e.regHeap("GH_"+nt.Obj().Name()+"_"+name, "(Array Int "+sort+")", gt), sort: sort, typ: gt}
+			idx := "Int"
+			if _, isIface := nt.Underlying().(*types.Interface); isIface {
+				idx = SIface
+			}
+			g := &ghostFieldInfo{heap: e.regHeap("GH_"+nt.Obj().Name()+"_"+name, "(Array "+idx+" "+sort+")", gt), sort: sort, typ: gt}
 			e.ghosts[key] = g
 			return g
 		}
